@@ -666,7 +666,11 @@ def req_close(lean_req, obs, model):
         return False
     if kind == "param":
         return int(par) == pidx(model, obs[1])
-    return SC.close(Fraction(par), obs[1], rel=1e-11, abs_=1e-300)
+    try:
+        return SC.close(Fraction(par), obs[1], rel=1e-11, abs_=1e-300)
+    except OverflowError:
+        # scale 1/rate of a denormal rate: beyond the largest double in the exact model, +inf (or ~1e308) in the code
+        return bool(np.isinf(obs[1]) or abs(obs[1]) > 1e300)
 
 
 # ----------------------------------------------------------------------------- STOCH
